@@ -53,3 +53,91 @@ def roundtrip(chunk, extra):
                 fails.append({'colour': c, 'format': f, 'stage': 'CSS reference parser', 'value': s, 'css_reads': repr(ref)})
         if len(fails) > 40: break
     return {'n': n, 'fails': fails[:40], 'stats': {'ties': ties}}
+
+
+# ---------------------------------------------------------------------------------------------- C05
+_REF = {}
+
+
+def _ref_tables():
+    """reference linearisation table from the WCAG definition at 50 digits, as numpy longdouble"""
+    if 'T' not in _REF:
+        import numpy as np
+        from oracles import colour as oc
+        K = oc.MpK(50)
+        T = [oc.srgb_decode(K, v) for v in range(256)]
+        _REF['T'] = np.array([np.longdouble(K.mp.nstr(x, 40)) for x in T], dtype=np.longdouble)
+        _REF['Tf'] = [float(x) for x in T]
+    return _REF['T']
+
+
+def luminance_sweep(chunk, extra):
+    """C05: relative luminance of the REAL function on every colour vs the WCAG definition (longdouble reference
+    built from a 50-digit table); also ratio against black and white, symmetry bit-for-bit, range"""
+    import numpy as np
+    from cm_colors.core.contrast import calculate_relative_luminance as lum, calculate_contrast_ratio as cr
+    T = _ref_tables()
+    W = (np.longdouble('0.2126'), np.longdouble('0.7152'), np.longdouble('0.0722'))
+    TOL = 8.9e-16
+    fails = []; n = 0; maxerr = 0.0; zeros = ones = 0
+    BL, WH = (0, 0, 0), (255, 255, 255)
+    for i in chunk:
+        c = rgb_of(i); n += 1
+        v = lum(c)
+        ref = W[0] * T[c[0]] + W[1] * T[c[1]] + W[2] * T[c[2]]
+        err = abs(float(np.longdouble(v) - ref))
+        if err > maxerr: maxerr = err
+        if not (err <= TOL) or v != v:
+            fails.append({'colour': c, 'what': 'luminance', 'library': v, 'reference': float(ref), 'abs_err': err})
+        if v == 0.0: zeros += 1
+        if v == 1.0: ones += 1
+        for other, name in ((BL, 'black'), (WH, 'white')):
+            a, b = cr(c, other), cr(other, c)
+            lo, hi = (ref, T[other[0]]) if ref <= T[other[0]] else (T[other[0]], ref)
+            rr = float((hi + np.longdouble('0.05')) / (lo + np.longdouble('0.05')))
+            if a != b or not (1.0 <= a <= 21.0) or abs(a - rr) > 1e-12:
+                fails.append({'colour': c, 'what': f'ratio against {name}', 'library': [a, b], 'reference': rr})
+        if len(fails) > 20: break
+    return {'n': n, 'fails': fails[:20], 'stats': {'max_abs_err': maxerr, 'lum_is_zero': zeros, 'lum_is_one': ones}}
+
+
+# ---------------------------------------------------------------------------------------------- C11 / C10
+def _np_tables():
+    if 'np' not in _REF:
+        import numpy as np
+        _ref_tables()
+        LD = np.longdouble
+        _REF['np'] = np
+        _REF['MXYZ'] = np.array([[LD('0.4124564'), LD('0.3575761'), LD('0.1804375')], [LD('0.2126729'), LD('0.7151522'), LD('0.0721750')], [LD('0.0193339'), LD('0.1191920'), LD('0.9503041')]], dtype=LD)
+        _REF['WHITE'] = np.array([LD('95.047'), LD('100.000'), LD('108.883')], dtype=LD)
+        _REF['EPS'] = LD(216) / LD(24389); _REF['KAPPA'] = LD(24389) / LD(27)
+        from oracles import colour as oc
+        _REF['M1'] = np.array([[LD(x) for x in row] for row in oc.M1], dtype=LD)
+        _REF['M2'] = np.array([[LD(x) for x in row] for row in oc.M2], dtype=LD)
+    return _REF['np']
+
+
+def lab_sweep(chunk, extra):
+    """C11: CIE L*a*b* (D65) of the REAL rgb_to_lab on every colour vs the CIE definition (exact epsilon/kappa, longdouble), tolerance 0.05"""
+    np = _np_tables()
+    from cm_colors.core.conversions import rgb_to_lab
+    ids = np.fromiter(chunk, dtype=np.int64)
+    ch = np.stack([(ids >> 16) & 255, (ids >> 8) & 255, ids & 255], axis=1)
+    lin = _REF['T'][ch]                                   # (n,3) longdouble
+    xyz = lin @ _REF['MXYZ'].T * np.longdouble(100)
+    t = xyz / _REF['WHITE']
+    f = np.where(t > _REF['EPS'], np.cbrt(t), (_REF['KAPPA'] * t + 16) / 116)
+    ref = np.stack([116 * f[:, 1] - 16, 500 * (f[:, 0] - f[:, 1]), 200 * (f[:, 1] - f[:, 2])], axis=1)
+    fails = []; maxerr = 0.0
+    for k, i in enumerate(ids.tolist()):
+        c = rgb_of(i)
+        try:
+            v = rgb_to_lab(c)
+        except Exception as e:
+            fails.append({'colour': c, 'what': 'rgb_to_lab raised', 'detail': f'{type(e).__name__}: {e}'}); continue
+        err = max(abs(float(np.longdouble(v[j]) - ref[k, j])) for j in range(3))
+        if err > maxerr: maxerr = err
+        if not err <= 0.05:
+            fails.append({'colour': c, 'library': list(v), 'reference': [float(x) for x in ref[k]], 'max_abs_err': err})
+            if len(fails) > 20: break
+    return {'n': len(ids), 'fails': fails[:20], 'stats': {'max_abs_err': maxerr}}
